@@ -188,9 +188,24 @@ def runTrace (cfgF : Fields) (ops : List (Nat × Fields)) : String :=
   let cap := getNatD cfgF "cap" 0
   let nkeys := getNatD cfgF "keys" 0
   let cfg : Cfg := { nshards, H := parseH (getD cfgF "hmode" "id") }
+  let ratioFn (name : String) : Nat → Nat :=
+    let ratio := Float.ofBits (UInt64.ofNat (getNatD cfgF name 0))
+    fun c => (c.toFloat * ratio).toUInt64.toNat
   match getD cfgF "algo" "oracle" with
   | "oracle" => runOps oraclePolicy oracleHooks cfg nkeys (Cache.new oraclePolicy cfg cap) ops 0
   | "fifo" => runOps fifoPolicy noHooks cfg nkeys (Cache.new fifoPolicy cfg cap) ops 0
+  | "lru" =>
+    let P := lruPolicy (ratioFn "hp_bits")
+    runOps P noHooks cfg nkeys (Cache.new P cfg cap) ops 0
+  | "sieve" => runOps sievePolicy noHooks cfg nkeys (Cache.new sievePolicy cfg cap) ops 0
+  | "s3fifo" =>
+    let P := s3Policy (ratioFn "s3_small_bits") (ratioFn "s3_ghost_bits") (getNatD cfgF "s3_thr" 1)
+    runOps P noHooks cfg nkeys (Cache.new P cfg cap) ops 0
+  | "lfu" =>
+    let nb := getNatD cfgF "cm_buckets" 2719
+    let k : SketchCfg := { rows := getNatD cfgF "cm_rows" 3, decay := nb, bucket := Murmur.bucket nb }
+    let P := lfuPolicy (ratioFn "lfu_window_bits") (ratioFn "lfu_protected_bits") k
+    runOps P noHooks cfg nkeys (Cache.new P cfg cap) ops 0
   | a => s!"REJECT line=0 step=0 field=algo model=unsupported impl={a}"
 
 end Driver.Mem
